@@ -649,3 +649,13 @@ func NumCPUOr(real func() int) int {
 	}
 	return real()
 }
+
+// SetKnob sets a knob for the active run (call from the main task before
+// starting the goroutines that read it).
+//
+//go:norace
+func SetKnob(name string, v int) {
+	if s := theSim; s != nil {
+		s.knobs[name] = v
+	}
+}
